@@ -33,7 +33,7 @@ func init() {
 	register("C14", "Decided: emission-time context vs traversal-time writers, no package-level writes after init, append-only ocode list, unconditional forward emission loop.",
 		ruleE5, ruleE1, ruleE1b, ruleE3, ruleE3s, ruleEmitLoop, ruleP7, ruleP8, ruleM17w, ruleE10)
 	register("C15", "Decided: symbol keys are exact identifier text, tables are never iterated, symbol ordering ignores names.",
-		ruleF5, ruleE2, ruleSymSort, ruleU7, ruleS15, ruleY16, ruleB15, ruleE10, ruleT10k, ruleN15, ruleN15b, ruleN15r, ruleE1, ruleE1b, ruleE1c)
+		ruleF5, ruleE2, ruleSymSort, ruleU7, ruleS15, ruleY16, ruleB15, ruleE10, ruleT10k, ruleN15, ruleN15b, ruleN15r, ruleN15g, ruleE1, ruleE1b, ruleE1c)
 	register("C16", "Decided: the origin chain from ORG to every address computation.",
 		ruleF6, ruleP5, ruleY16, ruleBranch, ruleSetters, ruleC2P, ruleP7, ruleW3, ruleN5, ruleO3, ruleW4o, ruleS3j)
 	register("C17", "Decided: default modes, BITS table, mode configuration of every operand object, emission-time mode vs traversal-time writer (known finding).",
